@@ -79,11 +79,17 @@ def run(ctx):
                        "oldp": list(old), "oldc": [old[p] for p in old], "reload": rname, "safe": safe}
                 try:
                     res = run_file_generators([mk_gen(g["name"], g["path"], g["prio"], g["out"], g["reload"], g["safe"]) for g in order], dev)
-                    nf = res.new_files(safe=safe)
+                    # the full and the safe plan are asked of the same result object, in either order, and asked again (as annet.gen does)
+                    calls = rnd.choice([("full", "safe"), ("safe", "full")])
+                    plans = {c: res.new_files(safe=(c == "safe")) for c in calls}
+                    again = {c: res.new_files(safe=(c == "safe")) for c in reversed(calls)}
+                    nf = plans["safe" if safe else "full"]
+                    rec.update({"fullp": list(plans["full"]), "fullc": [v[0] for v in plans["full"].values()],
+                                "safep": list(plans["safe"]), "safec": [v[0] for v in plans["safe"].values()], "stable": again == plans})
                     rec.update({"newp": list(nf), "newc": [nf[p][0] for p in nf], "newr": [nf[p][1] for p in nf]})
                     args = types.SimpleNamespace(entire_reload=flags[rname], acl_safe=safe)
                     job = api.PCDeployerJob(dev, args)
-                    onr = OldNewResult(device=dev, old_files=dict(old), new_files=res.new_files(), safe_new_files=res.new_files(safe=True))
+                    onr = OldNewResult(device=dev, old_files=dict(old), new_files=plans["full"], safe_new_files=plans["safe"])
                     job.parse_result(onr)
                     dc = job.deploy_cmds.get(dev, {"files": {}, "cmds": {}})
                     rec.update({"upp": list(dc["files"]), "upc": [dc["files"][p].decode() for p in dc["files"]],
@@ -92,7 +98,8 @@ def run(ctx):
                     # multi-line reload strings are not generated, so the first line is the generator's reload command
                     rec["diffp"] = [f.label.split(dev.hostname + "/", 1)[1] for f in ann_diff.pc_diff(hw, dev.hostname, dict(old), nf)]
                 except Exception as e:
-                    rec.update({"newp": [], "newc": [], "newr": [], "upp": [], "upc": [], "cmdp": [], "cmdc": [], "diffp": [], "exc": repr(e)})
+                    rec.update({"newp": [], "newc": [], "newr": [], "upp": [], "upc": [], "cmdp": [], "cmdc": [], "diffp": [], "fullp": [], "fullc": [], "safep": [],
+                                "safec": [], "stable": True, "exc": repr(e)})
                 recs.append(rec)
                 ctx.count()
                 if len(gs) > len({g["path"] for g in gs}) or old:
